@@ -786,6 +786,7 @@ func runOnce(c C07Case) (v verdict) {
 		survivors []*plug
 	)
 	reached := true
+	afterVeto := ""
 	for _, pl := range f.plugs {
 		ft := pl.spec.Fault
 		invoked := f.count(pl.spec.Idx, mainTag)
@@ -794,9 +795,11 @@ func runOnce(c C07Case) (v verdict) {
 			return
 		}
 		if !reached {
-			if invoked != 0 {
-				v.fail = fmt.Sprintf("clause 5: plugin %02d was invoked although plugin %02d before it had failed the request with an error (%s)", pl.spec.Idx, vetoer.spec.Idx, errClass(vetoer.spec.Fault))
-				return
+			if invoked != 0 && afterVeto == "" {
+				// judged below, once overload has been ruled out: a vetoing plugin whose answer
+				// needed longer than the request timeout is dropped by design and the plugins
+				// behind it are then invoked
+				afterVeto = fmt.Sprintf("clause 5: plugin %02d was invoked although plugin %02d before it had failed the request with an error (%s)", pl.spec.Idx, vetoer.spec.Idx, errClass(vetoer.spec.Fault))
 			}
 			if (ft.Kind == "close" && ft.When == "before") || ft.Kind == "dying" {
 				if ft.Kind == "dying" {
@@ -905,6 +908,11 @@ func runOnce(c C07Case) (v verdict) {
 				return
 			}
 		}
+	}
+
+	if afterVeto != "" {
+		v.fail = afterVeto
+		return
 	}
 
 	// --- clause 5 / clause 3: error and response
